@@ -12,8 +12,8 @@ PROFILES = {
     'sa_auth3': {'features': ['cap3', 'bytes32', 'vw24', 'valdigest', 'aw96', 'nc12', 'nh12']},
     # CAP 3, Bytes 16: Signer 5, Vec<Signer> 16, ContextRule 31 (event <= EW 32; install(param, rule, account) 37 <= AW 40);
     # `to_xdr` = 4-byte handle of the injective oracle (new additive model feature xdrdigest: a faithful serialisation of a
-    # Vec<Signer> can never fit into one model Bytes), oracle inputs of 32 words, oracle table of 12 records
-    'sa_rules': {'features': ['cap3', 'vw24', 'hw32', 'nh12', 'xdrdigest', 'aw40', 'ew32']},
+    # Vec<Signer> can never fit into one model Bytes); bytesdirect: all byte-string lengths in the fingerprint are concrete
+    'sa_rules': {'features': ['cap3', 'vw24', 'xdrdigest', 'aw40', 'ew32', 'bytesdirect']},
 }
 
 SA = 'smart_account::'
@@ -22,28 +22,53 @@ AUTH_FNS = [SA + f for f in ('do_check_auth', 'authenticate', 'get_validated_con
     ['policies::PolicyClient::can_enforce', 'policies::PolicyClient::enforce', 'verifiers::VerifierClient::verify']
 EXAMPLE_AUTH = ['examples/multisig-smart-account MultisigContract::__check_auth']
 
-AUTH_COMMON = ('registry built directly in storage: CAP rule slots with symbolic pairwise-distinct ids (full u32), each unlisted / listed '
+AUTH_COMMON = ('registry built directly in storage: CAP rule slots with fixed distinct ids (opaque to the code under test; C20 quantifies over all ids), each unlisted / listed '
                'under the context\'s own type / listed under Default, Meta{name 1-2 bytes, valid_until any Option<u32>}, Signers(id) and '
                'Policies(id) present or absent, duplicates allowed; signers Delegated(any of 5 addresses) or External(any of 5 verifiers, '
                'key of 1-2 arbitrary bytes); signature data 1-2 arbitrary bytes; payload any 32 bytes; context any of the three variants '
                '(contract any of 5 addresses / any wasm hash, any function name, 0..CAP arbitrary arguments); ledger full u32; '
                'every verifier/policy answer arbitrary or failing; require_auth_for_args grants arbitrary per address; unwind 98')
-B_1 = 'CAP=2: 1 context, 2 rules, <= 2 signers and <= 1 policy per rule, <= 2 signatures; ' + AUTH_COMMON
-B_1W = 'CAP=2: 1 context, 2 rules, <= 2 signers and <= 2 policies per rule, <= 2 signatures; ' + AUTH_COMMON
-B_2 = 'CAP=2: batch of 2 contexts (same or different rule types, own id list each), 2 rules, <= 2 signers and <= 1 policy per rule, <= 2 signatures; ' + AUTH_COMMON
-B_3 = 'CAP=3: 1 context, 3 rules, <= 3 signers and <= 2 policies per rule, <= 3 signatures; ' + AUTH_COMMON
+SEL_FNS = [SA + f for f in ('get_validated_context', 'get_valid_context_rules', 'get_authenticated_signers', 'can_enforce_all_policies',
+                            'get_context_rule')] + ['policies::PolicyClient::can_enforce']
+B_AUTH = 'CAP=2: 0..2 signatures; ' + AUTH_COMMON
+B_SEL = ('CAP=2: 1 context, 2 LISTED rules in the concrete list shape named by the harness (older slot, newer slot), <= 2 signers and <= 1 policy per '
+         'rule, 0..2 supplied signers; ' + AUTH_COMMON)
+B_SEL2 = B_SEL.replace('<= 1 policy', '<= 2 policies')
+B_SEL3 = ('CAP=3: 1 context, 3 LISTED rules in the concrete list shape named by the harness, <= 3 signers and <= 1 policy per rule, 0..3 supplied signers; '
+          + AUTH_COMMON)
+B_ONE = ('CAP=2: whole check, 1 context, ONE listed rule (Default / own type) + one stored but unlisted rule, <= 2 signers and <= 2 policies per rule, '
+         '0..2 signatures; ' + AUTH_COMMON)
+B_TWO = 'CAP=2: whole check, 1 context, an own-type rule and a Default rule, <= 2 signers and <= 1 policy per rule, 0..2 signatures; ' + AUTH_COMMON
+B_2CTX = ('CAP=2: whole check, batch of 2 contexts (same or different rule types, own id list each), one Default rule + one unlisted rule, <= 2 signers and '
+          '<= 1 policy per rule, 0..2 signatures; ' + AUTH_COMMON)
+PINNED = ('; all foreign calls pinned to return (boolean answers arbitrary), verifier answers true, delegated signers grant (payload,), the reference finds a '
+          'satisfied rule; sequence <= u32::MAX - 40 days (TTL extension representable)')
+# CBMC: ArgBuf has 96 words; keep arrays up to 128 elements field-sensitive (default 64) -- faster and far less memory
+CB = '--max-field-sensitivity-array-size 128'
+
+
+def A(h, fns, bounds, **kw):
+    return K('smart_account::' + h, profile=kw.pop('profile', 'sa_auth'), functions=fns, bounds=bounds, **kw)
+
 
 C03 = [
-    K('smart_account::check_auth_1ctx', profile='sa_auth', functions=AUTH_FNS + EXAMPLE_AUTH, bounds=B_1 + '; through the example account\'s __check_auth'),
-    K('smart_account::check_auth_1ctx_accepts', profile='sa_auth', must_succeed=True, functions=AUTH_FNS,
-      bounds=B_1 + '; all foreign calls pinned to return (boolean answers arbitrary), verifier answers true, delegated signers grant (payload,), '
-      'the reference finds a satisfied rule; sequence <= u32::MAX - 40 days (TTL extension representable)'),
-    K('smart_account::check_auth_1ctx_wide', profile='sa_auth', tier='thorough', functions=AUTH_FNS, bounds=B_1W),
-    K('smart_account::check_auth_1ctx_wide_accepts', profile='sa_auth', tier='thorough', must_succeed=True, functions=AUTH_FNS, bounds=B_1W),
-    K('smart_account::check_auth_2ctx', profile='sa_auth', tier='thorough', functions=AUTH_FNS, bounds=B_2),
-    K('smart_account::check_auth_2ctx_accepts', profile='sa_auth', tier='thorough', must_succeed=True, functions=AUTH_FNS, bounds=B_2),
-    K('smart_account::check_auth_3rules', profile='sa_auth3', tier='thorough', functions=AUTH_FNS, bounds=B_3),
-    K('smart_account::check_auth_3rules_accepts', profile='sa_auth3', tier='thorough', must_succeed=True, functions=AUTH_FNS, bounds=B_3),
+    A('authenticate_signatures', [SA + 'authenticate', 'verifiers::VerifierClient::verify'], B_AUTH),
+    A('authenticate_signatures_accepts', [SA + 'authenticate', 'verifiers::VerifierClient::verify'], B_AUTH + PINNED, must_succeed=True),
+    A('select_own_own', SEL_FNS, B_SEL),
+    A('select_default_default', SEL_FNS, B_SEL),
+    A('select_own_default', SEL_FNS, B_SEL),
+    A('select_default_own', SEL_FNS, B_SEL),
+    A('select_any_accepts', SEL_FNS, B_SEL.replace('in the concrete list shape named by the harness (older slot, newer slot)', 'of symbolic kinds (unlisted / own type / Default)') + PINNED, must_succeed=True),
+    A('check_auth_one_default_rule', AUTH_FNS + EXAMPLE_AUTH, B_ONE + '; through the example account\'s __check_auth'),
+    A('check_auth_one_own_rule', AUTH_FNS, B_ONE),
+    A('check_auth_one_rule_accepts', AUTH_FNS, B_ONE + PINNED, must_succeed=True),
+    A('select_own_own_2pol', SEL_FNS, B_SEL2, tier='thorough'),
+    A('select_own_default_2pol', SEL_FNS, B_SEL2, tier='thorough'),
+    A('select_default_default_2pol', SEL_FNS, B_SEL2, tier='thorough'),
+    A('check_auth_own_and_default_rule', AUTH_FNS, B_TWO, tier='thorough'),
+    A('check_auth_2ctx_one_default_rule', AUTH_FNS, B_2CTX, tier='thorough'),
+    A('select_own_own_default', SEL_FNS, B_SEL3, tier='thorough', profile='sa_auth3'),
+    A('select_own_default_default', SEL_FNS, B_SEL3, tier='thorough', profile='sa_auth3'),
 ]
 
 RULE_FNS = [SA + f for f in ('get_context_rule', 'compute_fingerprint', 'validate_and_set_fingerprint', 'remove_fingerprint',
@@ -85,7 +110,8 @@ C20 = [
 CHECKS = {
     'C03': {
         'kani': C03,
-        'bounds': 'quick: ' + B_1 + ' | thorough adds: <= 2 policies per rule; a batch of 2 contexts; CAP=3 (3 rules, <= 3 signers, <= 2 policies, <= 3 signatures)',
+        'bounds': ('split along do_check_auth = authenticate ; get_validated_context per context ; enforce per validated context. quick: ' + B_AUTH + ' | ' + B_SEL + ' | ' + B_ONE +
+                   ' | thorough adds: <= 2 policies per rule in the selection; whole check over two listed rules; batch of 2 contexts; CAP=3 selection over 3 listed rules'),
         'outside_claim': ('rule sets beyond 3 rules / 3 signers / 2 policies per rule / 2 contexts / 3 signatures (documented maxima 15 / 15 / 5; the loops are uniform: '
                           'small-scope argument); real signature cryptography (verifier contracts are oracles) and real policy contracts (C14 covers the library\'s own); '
                           'the host\'s own matching of __check_auth results to the invocation tree; key and signature data longer than 2 bytes, rule names longer than 2 bytes '
